@@ -77,6 +77,9 @@ enum Family {
     Lost,
     Torn,
     MultiBit,
+    /// whole key or one aligned 64-byte block reads back as a memory-test pattern
+    /// (0xAA, 0x55, address-in-data, ramp from 0)
+    Pattern,
 }
 
 impl Family {
@@ -88,6 +91,7 @@ impl Family {
             Family::Lost => "lost_write",
             Family::Torn => "torn_write",
             Family::MultiBit => "multi_bit_rot",
+            Family::Pattern => "test_pattern_fill",
         }
     }
 }
@@ -205,6 +209,21 @@ fn apply(fam: Family, idx: usize, honest: &[u8], other: &[u8], seed: u64, set_na
             x[idx..].copy_from_slice(&other[idx..]);
             desc = json!({"kind":"torn_write","first_n_bytes_of_this_key":idx,"rest_from":"another honest key"});
         }
+        Family::Pattern => {
+            let (kind, block) = (idx % 4, idx / 4);
+            let (lo, hi) = if block == 0 { (0, x.len()) } else { ((block - 1) * 64, (block * 64).min(x.len())) };
+            for i in lo..hi {
+                x[i] = match kind {
+                    0 => 0xAA,
+                    1 => 0x55,
+                    2 => i as u8,
+                    _ => (i - lo) as u8,
+                };
+            }
+            let pname = ["0xAA", "0x55", "address-in-data", "ramp"][kind];
+            let bdesc = if block == 0 { json!("whole key") } else { json!([lo, hi]) };
+            desc = json!({"kind":"test_pattern_fill","pattern":pname,"block":bdesc});
+        }
         Family::MultiBit => {
             let mut p = Prng::for_run(seed, &format!("c10-multi-{set_name}-{key_idx}"), idx as u64);
             let n = 2 + p.usize_below(7);
@@ -321,6 +340,7 @@ pub fn run(ctx: &Ctx) -> i32 {
                 (Family::Lost, 2),
                 (Family::Torn, n),
                 (Family::MultiBit, multi_per_key),
+                (Family::Pattern, 4 * (1 + n.div_ceil(64))),
             ] {
                 let start = if fam == Family::Torn { 1 } else { 0 };
                 let mut lo = start;
@@ -397,7 +417,7 @@ pub fn run(ctx: &Ctx) -> i32 {
         level: "fault_enumeration",
         evaluations: evals,
         signatures: sigs.into_iter().collect(),
-        rule: "Per seeded honest private key, serialised to the store: every single-bit flip of the SK_LEN bytes; stuck-at 0x00 and 0xFF at every byte; lost write (all 0x00 / all 0xFF); torn write against another honest key at every byte boundary; 2000 seeded multi-bit rots (2..8 flips, biased to the secret-vector region). Oracle, both directions: try_from_bytes is Err iff the layout model finds an s1/s2 field > 2*eta; in the checked flavour every accepted key is also re-serialised and must not panic. A case is distinct by (set, fault family, region of the fault, model verdict incl. vector and out-of-range value, outcome). The property's own partition (field index x out-of-range value) is counted separately as partition cells.".into(),
+        rule: "Per seeded honest private key, serialised to the store: every single-bit flip of the SK_LEN bytes; stuck-at 0x00 and 0xFF at every byte; lost write (all 0x00 / all 0xFF); torn write against another honest key at every byte boundary; memory-test pattern fills (0xAA, 0x55, address-in-data, ramp) of the whole key and of every aligned 64-byte block; 2000 seeded multi-bit rots (2..8 flips, biased to the secret-vector region). Oracle, both directions: try_from_bytes is Err iff the layout model finds an s1/s2 field > 2*eta; in the checked flavour every accepted key is also re-serialised and must not panic. A case is distinct by (set, fault family, region of the fault, model verdict incl. vector and out-of-range value, outcome). The property's own partition (field index x out-of-range value) is counted separately as partition cells.".into(),
         samples,
         exhaustive: false,
         extra: json!({
